@@ -274,7 +274,7 @@ type harnessReport struct {
 }
 
 func (r *runner) tierCfg(h string) *TierCfg {
-	base := TierCfg{Steps: 5_000_000, MaxPaths: 200000, SolverMs: 10000, BudgetS: 150, Witnesses: 2}
+	base := TierCfg{Steps: 5_000_000, MaxPaths: 1000000, SolverMs: 10000, BudgetS: 150, Witnesses: 2}
 	if r.tier == "thorough" {
 		base.BudgetS = 1500
 		base.SolverMs = 60000
